@@ -10,10 +10,10 @@ use serde_json::{json, Value};
 use vph::fgen;
 use vph::refdec;
 
-pub const RULE: &str = "(1) for each file of the damage corpus (crate-encoded mono/stereo/multichannel files with and without seek table and with unknown total; fgen-built files covering verbatim/constant/fixed/LPC subframes, wasted bits, escaped partitions, 5-bit Rice method, variable blocking and all stereo modes): EVERY single-bit flip at or after the first frame byte and EVERY truncation length, decoded through 4 reader front-ends + verify_reader, plus every bit of the stored MD5; (2) every must-reject class (bad sync, reserved header bit, reserved/illegal block-size, rate, channel, depth codes, malformed coded numbers, wrong CRC-8/CRC-16, header fields inconsistent with STREAMINFO, frame exceeding the declared total, subframe pad bit, reserved subframe types, wasted bits ≥ depth, precision 1111, negative shift, reserved coding methods, illegal partition orders, non-final blocks of 1..14 samples in fixed- and variable-blocksize streams) generated with valid checksums in frame 0 and in the last frame of the plain stream and of every stream within 2 (thorough 3) valid deviations; oracle: Ok ⇒ the independent decoder accepts the altered bytes with the same PCM; Err ⇒ samples delivered before it are a whole-frame prefix of the original and contain nothing of a must-reject frame; MD5Match only if the decoded PCM hashes to the stored digest, NoMD5 only for bytes the independent decoder accepts (the corpus holds files without a stored digest)";
+pub const RULE: &str = "(1) for each file of the damage corpus (crate-encoded mono/stereo/multichannel files with and without seek table and with unknown total; fgen-built files covering verbatim/constant/fixed/LPC subframes, wasted bits, escaped partitions, 5-bit Rice method, variable blocking and all stereo modes): EVERY single-bit flip at or after the first frame byte and EVERY truncation length, decoded through 4 reader front-ends + verify_reader, plus every bit of the stored MD5; (2) every must-reject class (bad sync, reserved header bit, reserved/illegal block-size, rate, channel, depth codes, malformed coded numbers, wrong CRC-8/CRC-16, header fields inconsistent with STREAMINFO, frame exceeding the declared total, subframe pad bit, reserved subframe types, wasted bits ≥ depth, precision 1111, negative shift, reserved coding methods, illegal partition orders, non-final blocks of 1..14 samples in fixed- and variable-blocksize streams) generated with valid checksums in frame 0 and in the last frame of the plain stream and of every stream within 2 (thorough 4) valid deviations; oracle: Ok ⇒ the independent decoder accepts the altered bytes with the same PCM; Err ⇒ samples delivered before it are a whole-frame prefix of the original and contain nothing of a must-reject frame; MD5Match only if the decoded PCM hashes to the stored digest, NoMD5 only for bytes the independent decoder accepts (the corpus holds files without a stored digest)";
 pub const ASSUMPTIONS: &[&str] = &["damage limited to one bit flip or one truncation per file; two simultaneous malformations only as (malformation × valid deviation)", "codes a decoder may but need not reject (non-zero padding, residual = -2^31, out-of-range reconstructed samples, a non-final block of exactly 15 samples, zero-length first partition) impose no verdict; non-final blocks of <= 14 samples must be rejected (the crate's short-block rule)"];
 pub fn bounds(quick: bool) -> Value {
-    json!({"corpus_files": crate::corpus::damage_corpus(false).len(), "bit_flips": "every bit from the first frame byte on", "truncations": "every length", "malformed_pairs": if quick { "bad × ≤2 valid deviations" } else { "bad × ≤3 valid deviations" }})
+    json!({"corpus_files": crate::corpus::damage_corpus(false).len(), "bit_flips": "every bit from the first frame byte on", "truncations": "every length", "malformed_pairs": if quick { "bad × ≤2 valid deviations" } else { "bad × ≤4 valid deviations" }})
 }
 
 const READERS: [ReaderKind; 4] = [ReaderKind::SampleFill, ReaderKind::ByteLE, ReaderKind::Channel, ReaderKind::SampleRead];
@@ -166,7 +166,7 @@ pub fn run(ctx: &Ctx, acc: &mut Acc) {
     // ---- (2) must-reject classes with valid checksums
     let m = menus();
     let knobs = bad_knobs();
-    for_each_deviation(&m, if ctx.quick { 2 } else { 3 }, |k| {
+    for_each_deviation(&m, if ctx.quick { 2 } else { 4 }, |k| {
         let base = match make_spec(k) {
             Ok(s) => s,
             Err(_) => return,
